@@ -1,5 +1,203 @@
 import BigtreeModel.Proto
-/-! Driver handler for property C18: one case (token list) in, one canonical line out. -/
+import BigtreeModel.Iter
+import BigtreeModel.Render
+import BigtreeModel.Generated.Tables
+/-! Driver handler for property C18 (renderings). One case per line:
+
+* `op=yield|print style=<S> md=<n> start=<i> nnp=<xhex> [attrs=-|all|xk,xk omit=0|1 br=xopen:xclose] (T tree | B btree)`
+  → `hex(pre)/hex(fill)/hex(name),…` (yield) or `hex(line),…` (print)
+* `op=hyield hstyle=<H> inter=0|1 md=<n> start=<i> nnp=<xhex> (T tree | B btree)` → `hex(row),…`
+* `op=dot (T|B)` → `V id:label,… E from>to,…` (both sorted)
+* `op=mermaid md=<n> start=<i> nnp=<xhex> (T|B)` → `hex(flow line),…` (`-` when there is none)
+* `op=s2t prefixes=-|x:x text=<xhex>` → shape or `rej`
+* `op=rt style=<S> md=<n> (T|B)` → shape of `strToTree [branch, stem_final] (text of yieldTree)` or `rej`
+* `op=hdec hstyle=<H> inter=0|1 md=<n> (T|B)` → shape decoded (by the Lean decoder) from the model's own
+  horizontal rendering (a test of decodability, see LEVEL_TEXT)
+
+`<S>` = a key of the generated PRINT_STYLES table or `custom:xstem:xbranch:xfinal`;
+`<H>` = a key of HPRINT_STYLES or `custom:x:x:x:x:x:x:x`. Exceptions ⇒ `rej`. -/
 namespace Drv.C18
-def handle (_toks : List String) : String := "unimplemented"
+open Proto Render
+
+def splitAtTok (toks : List String) (t : String) : List String × List String :=
+  (toks.takeWhile (· ≠ t), (toks.dropWhile (· ≠ t)).drop 1)
+
+/-- outer `none` = bad-op, inner `none` = the Python raises -/
+def parseStyle (s : String) : Option (Option Style) :=
+  match s.splitOn ":" with
+  | ["custom", a, b, c] => do
+    let st : Style := ⟨← unhex a, ← unhex b, ← unhex c⟩
+    pure (if st.lengthsOk then some st else none)
+  | [k] =>
+    match Generated.printStyles.find? (·.1 == k) with
+    | some (_, a, b, c) =>
+      let st : Style := ⟨a.toList, b.toList, c.toList⟩
+      some (if st.lengthsOk then some st else none)
+    | none => some none     -- assert_style_in_dict raises
+  | _ => none
+
+def mkH (l : List Str) : Option HStyle :=
+  match l with
+  | [[a], [b], [c], [d], [e], [f], [g]] => some ⟨a, b, c, d, e, f, g⟩
+  | _ => none
+
+def parseHStyle (s : String) : Option (Option HStyle) :=
+  match s.splitOn ":" with
+  | "custom" :: rest => do
+    let l ← rest.mapM unhex
+    if l.length != 7 then none else pure (mkH l)
+  | [k] =>
+    match Generated.hprintStyles.find? (·.1 == k) with
+    | some (_, l) => some (mkH (l.map String.toList))
+    | none => some none
+  | _ => none
+
+def hexList (l : List Str) : String := if l.isEmpty then "-" else ",".intercalate (l.map hex)
+
+mutual
+partial def showShape : Tree → String
+  | .node _ n _ cs => "( " ++ hex n ++ " " ++ String.join (cs.map fun c => showShape c ++ " ") ++ ")"
+end
+
+partial def showHShape : HTree → String
+  | .hole => "_"
+  | .node n cs => "( " ++ hex n ++ " " ++ String.join (cs.map fun c => showHShape c ++ " ") ++ ")"
+
+/-- the tree argument: root tree (holes of a binary tree dropped) -/
+def parseArg (toks : List String) : Option (Tree × Option BTree) :=
+  if toks.contains "B" then do
+    let (bt, _) ← parseBTree (splitAtTok toks "B").2
+    match bt.toTrees with
+    | [t] => pure (t, some bt)
+    | _ => none
+  else do
+    let (t, _) ← parseTree (splitAtTok toks "T").2
+    pure (t, none)
+
+def sep : Str := ['/']
+
+/-- `get_subtree(nodes[start], nnp)`: outer none = bad-op, inner none = exception -/
+def select (t : Tree) (start : Nat) (nnp : Str) : Option (Option Tree) :=
+  match (pathsT sep [] t)[start]? with
+  | none => none
+  | some (path, sub) =>
+    let ppath := path.take (path.length - sep.length - sub.name.length)
+    some (selectSub sep ppath sub nnp)
+
+/-! attribute text of `print_tree` -/
+def valStr : Val → Str
+  | .null => "None".toList
+  | .int i => (toString i).toList
+  | .str s => s
+  | .bool true => "True".toList
+  | .bool false => "False".toList
+
+def strLe (a b : Str) : Bool := a.map Char.toNat ≤ b.map Char.toNat
+
+def attrStr (mode : String) (omit : Bool) (bo bc : Str) (t : Tree) : Option Str := do
+  let items : List Str ←
+    if mode == "all" then
+      pure ((t.attrs.mergeSort fun x y => strLe x.1 y.1).map fun (k, v) => k ++ '=' :: valStr v)
+    else do
+      let keys ← (mode.splitOn ",").mapM unhex
+      pure (keys.filterMap fun k =>
+        match t.attrs.lookup k with
+        | some v => if omit && v == .null then none else some (k ++ '=' :: valStr v)
+        | none => none)
+  let s := ", ".toList.intercalate items
+  pure (if s.isEmpty then [] else ' ' :: bo ++ s ++ bc)
+
+mutual
+partial def preTrees : Tree → List Tree
+  | .node i n a cs => .node i n a cs :: (cs.map preTrees).flatten
+end
+
+def strSort (l : List String) : List String := l.mergeSort fun a b => a ≤ b
+
+def handle (toks : List String) : String :=
+  let r : Option String := do
+    let op ← kv toks "op"
+    match op with
+    | "yield" | "print" =>
+      let (t, _) ← parseArg toks
+      let md ← (← kv toks "md").toNat?
+      let start ← (← kv toks "start").toNat?
+      let nnp ← unhex (← kv toks "nnp")
+      let st? ← parseStyle (← kv toks "style")
+      let sub? ← select t start nnp
+      -- order of the Python: get_subtree first, then the style checks
+      match sub?, st? with
+      | some sub, some st =>
+        let lines := yieldTree st md sub
+        if op == "yield" then
+          pure (if lines.isEmpty then "-" else
+            ",".intercalate (lines.map fun l => hex l.pre ++ "/" ++ hex l.fill ++ "/" ++ hex l.name))
+        else
+          let mode := (kv toks "attrs").getD "-"
+          if mode == "-" then pure (hexList (lines.map Line.text))
+          else
+            let omit := (kv toks "omit").getD "0" == "1"
+            let (bo, bc) ← match ((kv toks "br").getD "x5b:x5d").splitOn ":" with
+              | [a, b] => do pure ((← unhex a), (← unhex b))
+              | _ => none
+            -- the i-th line belongs to the i-th node of the pruned tree in pre-order
+            let nodes := preTrees (prune md sub)
+            let strs ← (lines.zip nodes).mapM fun (l, n) => do
+              pure (l.text ++ (← attrStr mode omit bo bc n))
+            pure (hexList strs)
+      | _, _ => pure "rej"
+    | "hyield" | "hdec" =>
+      let (t, bt?) ← parseArg toks
+      let md ← (← kv toks "md").toNat?
+      let inter := (← kv toks "inter") == "1"
+      let hs? ← parseHStyle (← kv toks "hstyle")
+      let h? : Option HTree ←
+        match bt? with
+        | some bt => pure (some (ofBTree bt))
+        | none => do
+          let start ← (← kv toks "start").toNat?
+          let nnp ← unhex (← kv toks "nnp")
+          pure ((← select t start nnp).map ofTree)
+      match h?, hs? with
+      | some h, some S =>
+        let rows := hyieldTree S inter md h
+        if op == "hyield" then pure (hexList rows)
+        else
+          match hdecode S rows with
+          | some d => pure (showHShape d)
+          | none => pure "undecodable"
+      | _, _ => pure "rej"
+    | "dot" =>
+      let (t, _) ← parseArg toks
+      let o := dotT sep [] none [] t
+      pure ("V " ++ hexListS (strSort (o.vertices.map fun (i, l) => hex i ++ ":" ++ hex l))
+        ++ " E " ++ hexListS (strSort (o.edges.map fun (a, b) => hex a ++ ">" ++ hex b)))
+    | "mermaid" =>
+      let (t, _) ← parseArg toks
+      let md ← (← kv toks "md").toNat?
+      let start ← (← kv toks "start").toNat?
+      let nnp ← unhex (← kv toks "nnp")
+      match ← select t start nnp with
+      | some sub => pure (hexList ((mermaidFlows md sub).map Flow.text))
+      | none => pure "rej"
+    | "s2t" =>
+      let ptok ← kv toks "prefixes"
+      let prefixes ← if ptok == "-" then pure [] else (ptok.splitOn ":").mapM unhex
+      if prefixes.any List.isEmpty then none
+      let text ← unhex (← kv toks "text")
+      match strToTree prefixes text with
+      | some t => pure (showShape t)
+      | none => pure "rej"
+    | "rt" =>
+      let (t, _) ← parseArg toks
+      let md ← (← kv toks "md").toNat?
+      match ← parseStyle (← kv toks "style") with
+      | some st =>
+        match strToTree [st.branch, st.stemFinal] (joinNl ((yieldTree st md t).map Line.text)) with
+        | some t' => pure (showShape t')
+        | none => pure "rej"
+      | none => pure "rej"
+    | _ => none
+  r.getD "bad-op"
+where hexListS (l : List String) : String := if l.isEmpty then "-" else ",".intercalate l
 end Drv.C18
